@@ -28,6 +28,8 @@ def model_key(kind, keyform, row):
         k = (row['f'],)
     if keyform == 'list2':
         k = k + (frac(row['g']),)
+    if keyform == 'format2':
+        k = ('{:03d}'.format(row['g']),) + k      # a field with a format spec compares as its formatted text
     return k
 
 
@@ -38,6 +40,8 @@ def build_key(keyform):
         return ['f']
     if keyform == 'list2':
         return ['f', 'g']
+    if keyform == 'format2':
+        return '{g:03d}{f}'
     if keyform == 'callable':
         return lambda row: str(row['f'])
     raise AssertionError(keyform)
@@ -124,9 +128,9 @@ def tables(alpha, maxlen):
 
 def cases(tier):
     out = []
-    full_cfg = [(k, r, b, s) for k in ('format', 'list1', 'list2', 'callable') for r in (False, True)
+    full_cfg = [(k, r, b, s) for k in ('format', 'format2', 'list1', 'list2', 'callable') for r in (False, True)
                 for b in (1, 2, 1000) for s in (False, True)]
-    red_cfg = [('format', False, 1000, False), ('list1', True, 1000, False), ('list2', False, 2, True),
+    red_cfg = [('format', False, 1000, False), ('list1', True, 1000, False), ('list2', False, 2, True), ('format2', False, 1000, False),
                ('callable', True, 1, True), ('format', True, 2, True)]
     for kind, alpha in (('num', NUMS), ('text', TEXTS)):
         n_full = 2 if tier == 'quick' else 3
